@@ -12,7 +12,7 @@ import ast
 
 from ..engine import rule
 from ..model import Undecided
-from ..cfg import dotted, call_name, is_call, simple_name, unparse, const_value, contains, enclosing, implied
+from ..cfg import same, same_args, dotted, call_name, is_call, simple_name, unparse, const_value, contains, enclosing, implied
 from ..flow import Canon, Defs, depends
 from ..decide import table, ret_kind, expr_table
 from ..util import keyword, returns_of, calls_in, inside, order_key, arg_of
@@ -141,12 +141,12 @@ def c10b(ctx):
     ctx.check(ok, 'WMSServer.map:global-limit-to-merger', 'merger.merge(coverage=...) receives the global limit of authorized_layers()', fn,
               fail='the global limited_to geometry is not handed to the merger: the response is not clipped')
     fa = [x for x in fn.walk() if is_call(x, 'self.filter_actual_layers')]
-    ok = bool(fa) and all(len(x.args) == 3 and unparse(x.args[0]) == 'actual_layers' and
+    ok = bool(fa) and all(len(x.args) == 3 and same(x.args[0], 'actual_layers') and
                           depends(x.args[2], lambda y: is_call(y, 'self.authorized_layers'), defs) for x in fa)
     ctx.check(ok, 'WMSServer.map:permissions-to-filter', 'filter_actual_layers receives the layers to render and the permissions of authorized_layers()', fn)
     rl = [v for v, sel in defs.of('render_layers')]
     ex = [x for x in fn.walk() if is_call(x, 'render_layers.extend')]
-    ok = bool(ex) and all(inside(x, enclosing(x, ast.For)) and unparse(enclosing(x, ast.For).iter) == 'actual_layers.values()' for x in ex)
+    ok = bool(ex) and all(inside(x, enclosing(x, ast.For)) and same(enclosing(x, ast.For).iter, 'actual_layers.values()') for x in ex)
     ctx.check(ok, 'WMSServer.map:renders-filtered-layers', 'the layers handed to the renderer are taken from the filtered actual_layers', fn)
     for qn, auth in ((WMS + ':WMSServer.featureinfo', 'self.authorized_layers'), (WMTS + ':WMTSServer.featureinfo', 'self.authorize_tile_layer')):
         fn = ctx.fn(qn)
@@ -155,7 +155,7 @@ def c10b(ctx):
         gi = g.find(lambda x: is_call(x, 'get_info'))
         gate = lambda at: at.mentions(lambda y: is_call(y, 'coverage.contains') and y.args and 'coord' in unparse(y.args[0]))
         # every path to a get_info either found the query point inside the limit or found no limit at all
-        nolimit = lambda at: at.op is None and unparse(at.expr) == 'coverage'
+        nolimit = lambda at: at.op is None and same(at.expr, 'coverage')
         ok = bool(gi) and all(g.guarded_any(n, [(gate, True), (nolimit, False)]) for n, x in gi)
         cov = [v for v, sel in defs.of('coverage')]
         ok = ok and bool(cov) and all(contains(v, lambda y: is_call(y, auth)) for v in cov)
@@ -349,7 +349,7 @@ def c10c(ctx):
         ctx.check(ok, fn.short + ':all-only-full', 'all layers are listed only without callback or for "full"', fn)
     fn = ctx.fn(WMS + ':WMSServer.authorized_capability_layers')
     g = fn.cfg
-    root = g.find_stmts(lambda s: isinstance(s, ast.Return) and unparse(s.value) == 'self.root_layer')
+    root = g.find_stmts(lambda s: isinstance(s, ast.Return) and same(s.value, 'self.root_layer'))
     ok = bool(root) and all(g.guarded(r, lambda at: "'full'" in at.text, True) or g.guarded(r, lambda at: 'mapproxy.authorize' in at.text, False) for r in root)
     ctx.check(ok, 'WMSServer.authorized_capability_layers:unfiltered-only-full', 'the unfiltered layer tree is returned only without callback or for "full"', fn)
     # with a callback the function never falls off its end and never returns for an answer other than full / partial
@@ -374,7 +374,7 @@ def c10c(ctx):
     g = h.cfg
     rend = g.find(lambda x: is_call(x, 'self._render_wms_template', 'self._render_tms_template', 'self._render_wmts_template',
                                     'self._render_template', 'self._render_capabilities_template'))
-    ok = bool(rend) and all(g.guarded(n, lambda at: at.op is None and unparse(at.expr) == 'authorized', True) for n, x in rend)
+    ok = bool(rend) and all(g.guarded(n, lambda at: at.op is None and same(at.expr, 'authorized'), True) for n, x in rend)
     ctx.check(ok, 'DemoServer.handle:answer-used', 'templates are rendered only when authorized_demo() returned True', h)
 
 
@@ -401,7 +401,7 @@ def c10d(ctx):
     mg = cands[0]
     ctx.stats['functions'].add(mg.qn)
     g = mg.cfg
-    fast = g.find_stmts(lambda s: isinstance(s, ast.Return) and unparse(s.value) == 'layer_img')
+    fast = g.find_stmts(lambda s: isinstance(s, ast.Return) and same(s.value, 'layer_img'))
     if not fast:
         ctx.ok('LayerMerger.merge:no-fast-path', 'no single-layer fast path', mg)
     for r in fast:
@@ -419,9 +419,9 @@ def c10d(ctx):
                   'the single-layer fast path is taken only without global coverage and without a clipping layer coverage', mg, st,
                   fail='the single-layer fast path returns the unclipped image although a global or per-layer clip coverage is present')
     masks = g.find(lambda x: is_call(x, 'mask_image'))
-    per_layer = [(n, x) for n, x in masks if len(x.args) >= 4 and unparse(x.args[3]) == 'layer_coverage']
-    glob = [(n, x) for n, x in masks if len(x.args) >= 4 and unparse(x.args[3]) == 'coverage']
-    ok = len(per_layer) == 1 and g.guarded(per_layer[0][0], lambda at: at.op is None and unparse(at.expr) == 'layer_coverage', True) and \
+    per_layer = [(n, x) for n, x in masks if len(x.args) >= 4 and same(x.args[3], 'layer_coverage')]
+    glob = [(n, x) for n, x in masks if len(x.args) >= 4 and same(x.args[3], 'coverage')]
+    ok = len(per_layer) == 1 and g.guarded(per_layer[0][0], lambda at: at.op is None and same(at.expr, 'layer_coverage'), True) and \
         g.guarded(per_layer[0][0], lambda at: at.op is None and unparse(at.expr).endswith('.clip'), True) and \
         enclosing(per_layer[0][1], ast.For) is not None
     ctx.check(ok, 'LayerMerger.merge:per-layer-mask', 'inside the layer loop each image is masked with its own clipping coverage', mg,
@@ -431,9 +431,9 @@ def c10d(ctx):
     if ok:
         gn = glob[0][0]
         # on the `coverage` true edge the mask lies on every path to the final return
-        edges = g.guard_edges(lambda at: at.op is None and unparse(at.expr) == 'coverage', True)
+        edges = g.guard_edges(lambda at: at.op is None and same(at.expr, 'coverage'), True)
         iff = enclosing(glob[0][1], ast.If)
-        ok = iff is not None and unparse(iff.test) == 'coverage' and not inside(iff, enclosing(per_layer[0][1], ast.For) if per_layer else iff) and \
+        ok = iff is not None and same(iff.test, 'coverage') and not inside(iff, enclosing(per_layer[0][1], ast.For) if per_layer else iff) and \
             all(g.dominates(g.node_of[id(iff)], r) for r in lastret)
         res = [s for s in iff.body if isinstance(s, ast.Assign) and unparse(s.targets[0]) == 'result'] if iff is not None else []
         ok = ok and bool(res)
@@ -447,7 +447,7 @@ def c10e(ctx):
         fn = ctx.fn('%s:TileLayer.%s' % (TILE, m))
         g = fn.cfg
         defs = Defs(fn.node)
-        cov_if = [s for s in fn.walk() if isinstance(s, ast.If) and unparse(s.test) == 'coverage']
+        cov_if = [s for s in fn.walk() if isinstance(s, ast.If) and same(s.test, 'coverage')]
         if not cov_if:
             ctx.bad('TileLayer.%s:coverage-branch' % m, 'no `if coverage:` branch', fn)
             continue
@@ -485,18 +485,18 @@ def c10e(ctx):
         ok = bool(loads) and all(g.dominates(g.node_of[id(cov_if[0])], n) for n, x in loads)
         ctx.check(ok, 'TileLayer.%s:limit-before-load' % m, 'the limit is evaluated before the tile is loaded', fn)
         flag_rets = [r for r in g.find_stmts(lambda s: isinstance(s, ast.Return) and is_call(s.value, 'TileResponse'))
-                     if g.guarded(r, lambda at: at.op is None and unparse(at.expr) == 'coverage_intersects', True)]
+                     if g.guarded(r, lambda at: at.op is None and same(at.expr, 'coverage_intersects'), True)]
         masks = g.find(lambda x: is_call(x, 'mask_image_source_from_coverage'))
         ok = len(flag_rets) == 1 and len(masks) == 1 and g.dominates(masks[0][0], flag_rets[0]) and \
-            [unparse(a) for a in masks[0][1].args[:4]] == ['tile.source', 'tile_bbox', 'self.grid.srs', 'coverage']
+            same_args(masks[0][1].args[:4], ['tile.source', 'tile_bbox', 'self.grid.srs', 'coverage'])
         ctx.check(ok, 'TileLayer.%s:mask-on-flag' % m, 'on the flag edge the tile is masked with the limit and the same tile_bbox before it is returned', fn,
                   fail='an only-intersecting tile is returned without mask_image_source_from_coverage(tile.source, tile_bbox, srs, coverage, ...)')
         plain = [r for r in g.find_stmts(lambda s: isinstance(s, ast.Return) and is_call(s.value, 'TileResponse')) if r not in flag_rets]
-        ok = bool(plain) and all(g.guarded(r, lambda at: at.op is None and unparse(at.expr) == 'coverage_intersects', False) for r in plain)
+        ok = bool(plain) and all(g.guarded(r, lambda at: at.op is None and same(at.expr, 'coverage_intersects'), False) for r in plain)
         ctx.check(ok, 'TileLayer.%s:unmasked-only-without-flag' % m, 'the unmasked response is returned only when the flag is not set', fn)
         init = [v for v, sel in defs.of('coverage_intersects')]
         tb = [v for v, sel in defs.of('tile_bbox')]
-        ok = all(is_call(v, 'self.grid.tile_bbox') and unparse(v.args[0]) == 'tile_coord' for v in tb) and bool(tb)
+        ok = all(is_call(v, 'self.grid.tile_bbox') and same(v.args[0], 'tile_coord') for v in tb) and bool(tb)
         ctx.check(ok, 'TileLayer.%s:bbox-of-served-tile' % m, 'the limit is compared with the bbox of the internal coordinate that is served', fn)
 
 
@@ -521,7 +521,7 @@ def c10f(ctx):
     ctx.check(ok, 'LimitedLayer.combined_layer:equal-coverages-only', 'limited layers are combined only when their limits are equal', cl,
               fail='limited layers with different limits can be combined into one upstream request (one of the limits is lost)')
     rets = [r for r in returns_of(cl.node) if not (isinstance(r.value, ast.Constant) and r.value.value is None)]
-    ok = bool(rets) and all(is_call(r.value, 'LimitedLayer') and unparse(r.value.args[1]) == 'self.coverage' for r in rets)
+    ok = bool(rets) and all(is_call(r.value, 'LimitedLayer') and same(r.value.args[1], 'self.coverage') for r in rets)
     ctx.check(ok, 'LimitedLayer.combined_layer:rewrapped', 'the combined layer is wrapped in LimitedLayer with the same limit', cl)
 
 
